@@ -2,8 +2,8 @@
 """tools/confirm_seed.py /tmp/seed_Cxx/mK [check ids...]
 Confirms a sub-agent's seeded change independently in a scratch worktree (/tmp/wt_confirm):
  (1) demo passes on the clean tree, (2) demo fails with the patch, (3) the repository's test
- suite passes with the patch; then applies the patch to /repo, runs the listed checks (default:
- the property's own quick check), reverts /repo, and stores everything under /verif/seeded/."""
+ suite passes with the patch; then applies the patch in the scratch sandbox /tmp/sb, runs the listed checks there (default:
+ the property's own quick check), reverts the sandbox, and stores everything under /verif/seeded/."""
 import json, os, re, shutil, subprocess, sys
 src = sys.argv[1].rstrip('/')
 checks = sys.argv[2:]
@@ -48,17 +48,18 @@ res['repo_tests_with_patch'] = 'pass' if rc == 0 else 'FAIL'
 if rc != 0: res['repo_tests_output'] = '\n'.join(l for l in out.splitlines() if 'FAILED' in l or 'panicked' in l)[:2000]
 sh('git checkout -q -- . && git clean -fdq -e target', WT)
 # run our checks against the change in /repo
-rc, out = sh('git -C /repo diff --quiet')
-assert rc == 0, "/repo is dirty"
+# the checks run in the scratch sandbox /tmp/sb (tools/sandbox.sh), never against /repo itself
+SB = '/tmp/sb'
+rc, out = sh('/verif/tools/sandbox.sh'); assert rc == 0, out
 det = {}
 try:
-    rc, out = sh(f'git -C /repo apply {src}/patch.diff'); assert rc == 0, out
+    rc, out = sh(f'git -C {SB}/repo apply {src}/patch.diff'); assert rc == 0, out
     for c in checks:
-        rc, out = sh(f'/verif/check {c} {os.environ.get("TIER","quick")}', timeout=7200)
+        rc, out = sh(f'{SB}/verif/check {c} {os.environ.get("TIER","quick")}', timeout=7200)
         sigs = sorted(set(re.findall(r'signature=(\S+)', out)))
         det[c] = {'exit': rc, 'signatures': sigs[:6]}
 finally:
-    sh('git -C /repo checkout -- .')
+    sh(f'git -C {SB}/repo checkout -- .')
 ok = res['demo_on_clean_tree'] == 'pass' and res['demo_with_patch'] == 'fail' and res['repo_tests_with_patch'] == 'pass'
 meta['confirmed'] = res
 meta['checks_run'] = det
